@@ -287,7 +287,11 @@ type seededChange struct {
 	Needs     string   `json:"needs,omitempty"`
 	Breaks    string   `json:"breaks,omitempty"`
 	Limit     string   `json:"limit,omitempty"`
-	Dir       string   `json:"-"`
+	// CheckProperty names the property whose check reports the change when that is a sibling
+	// of the property the change breaks (empty: the same property).
+	CheckProperty string `json:"check_property,omitempty"`
+	Dir           string `json:"-"`
+	runAs         string
 	Ran       []string `json:"ran,omitempty"`
 }
 
@@ -304,10 +308,22 @@ func loadSeeded(prop string) []seededChange {
 			continue
 		}
 		var sc seededChange
-		if json.Unmarshal(b, &sc) != nil || sc.Property != prop {
+		if json.Unmarshal(b, &sc) != nil {
+			continue
+		}
+		if sc.CheckProperty == "" {
+			sc.CheckProperty = sc.Property
+		}
+		if sc.Property != prop && sc.CheckProperty != prop {
 			continue
 		}
 		sc.Dir = filepath.Join(root, e.Name())
+		if sc.CheckProperty != prop {
+			// the change breaks this property but is reported by a sibling property's check
+			sc.Limit = "not reported by " + prop + "'s rules; reported by the " + sc.CheckProperty + " check (" + sc.ExpectKey + ")"
+			sc.Expect, sc.ExpectKey = "undetected", ""
+		}
+		sc.runAs = prop
 		out = append(out, sc)
 	}
 	sort.Slice(out, func(i, j int) bool { return out[i].ID < out[j].ID })
@@ -333,7 +349,7 @@ func runSeeded(sc seededChange, repo, self, knownPath string) variantResult {
 		res.Outcome, res.Detail = "skipped", "patch no longer applies to the current tree: "+firstLine(string(out))
 		return res
 	}
-	cmd := exec.Command(self, "-repo", work, "-out", filepath.Join(tmp, "ev"), "-known", knownPath, "-tier", "quick", sc.Property)
+	cmd := exec.Command(self, "-repo", work, "-out", filepath.Join(tmp, "ev"), "-known", knownPath, "-tier", "quick", sc.runAs)
 	cmd.Env = append(os.Environ(), "VERIF_SELFTEST_CHILD=1")
 	outb, err := cmd.CombinedOutput()
 	out := string(outb)
@@ -347,7 +363,7 @@ func runSeeded(sc seededChange, repo, self, knownPath string) variantResult {
 	}
 	named := false
 	for _, ln := range strings.Split(out, "\n") {
-		if strings.Contains(ln, "["+sc.Property+" ") && (sc.ExpectKey == "" || strings.Contains(ln, sc.ExpectKey)) {
+		if strings.Contains(ln, "["+sc.runAs+" ") && (sc.ExpectKey == "" || strings.Contains(ln, sc.ExpectKey)) {
 			named = true
 		}
 	}
